@@ -55,6 +55,12 @@ MALFORMED = [
     ("lin_cols", "LinCols"),
     ("nl_lb_2d", "NlLb2d"),
     ("maxfev_0", dict(options={"maxfev": 0})),
+    ("maxfev_inf", dict(options={"maxfev": float("inf")})),
+    ("maxiter_inf", dict(options={"maxiter": float("inf")})),
+    ("npt_inf", dict(options={"nb_points": float("inf")})),
+    ("filter_inf", dict(options={"filter_size": float("inf")})),
+    ("history_inf", dict(options={"history_size": float("inf"),
+                                  "store_history": True})),
     ("maxiter_neg", dict(options={"maxiter": -1})),
     ("npt_big", dict(options={"nb_points": 50})),
     ("radius_neg", dict(options={"radius_init": -1.0})),
